@@ -1243,6 +1243,11 @@ func (eval Evaluator) RotateHoistedNew(ctIn *rlwe.Ciphertext, rotations []int) (
 // where each element of the map is the input Ciphertext rotation by one element of the list.
 // It is much faster than sequential calls to [Evaluator.Rotate].
 func (eval Evaluator) RotateHoisted(ctIn *rlwe.Ciphertext, rotations []int, opOut map[int]*rlwe.Ciphertext) (err error) {
+
+	if eval.GetParameters().PCount() == 0 {
+		return fmt.Errorf("cannot RotateHoisted: method requires parameters with an auxiliary modulus P (hoisted key-switching)")
+	}
+
 	levelQ := ctIn.Level()
 	eval.DecomposeNTT(levelQ, eval.GetParameters().MaxLevelP(), eval.GetParameters().PCount(), ctIn.Value[1], ctIn.IsNTT, eval.BuffDecompQP)
 	for _, i := range rotations {
